@@ -890,6 +890,8 @@ int bufr_check_sequence
       node = lst_nextnode( node );
       }
 
+   if ((repl_active == 0) && (lst_count( stack ) > 0))
+      repl_active = 1; /* an inner replication is still waiting for descriptors */
    free_rep_cnt_stack( stack );
    stack = NULL;
    if (next_31021 != 0)
